@@ -4,13 +4,27 @@ CLAIM = True
 def obligations(tier):
     q = tier == 'quick'
     K = 5 if q else 6
-    return [dict(name='poll_seq_K%d' % K, src='c14_poll.c', cflags=['-DKSTEPS=%d' % K], nslots=1, pre=['seq'], plain=[('seq', 0)],
+    obs = [dict(name='poll_seq_K%d' % K, src='c14_poll.c', cflags=['-DKSTEPS=%d' % K], nslots=1, pre=['seq'], plain=[('seq', 0)],
                  stub_map={'urcu_mb_call_rcu': 'my_call_rcu'}, indirect_only={'seq': ['urcu_poll_worker_cb']},
                  unwind=K + 2, unwinding_assertions=True, timeout=1500, mem_gb=16,
                  witnesses=['end of harness reachable', 'handle taken while a worker grace period was already in flight', 'a poll returned true',
                             'worker re-queued itself'],
                  desc='every sequence of %d atomic steps over {start_poll x3 handles, poll, reader begin/end x2, worker callback} from an arbitrary 64-bit starting id' % K,
                  bounds=dict(steps=K, handles=3, readers=2, start_id='any 2^64 value'))]
+    import copy
+    w = copy.deepcopy(obs[0])
+    w['name'] = 'poll_seq_K%d_wrap' % K
+    w['cflags'] = w['cflags'] + ['-DWRAP_ONLY']
+    w['desc'] += ' restricted to starting ids within 4 of the unsigned (2^64) and signed (2^63) wrap points'
+    w['bounds']['start_id'] = 'within 4 of 2^64 and 2^63'
+    obs.append(w)
+    from props.common import conc
+    R = 3 if q else 4
+    obs += conc('poll_conc', 'c14_conc.c', ['t1', 'helper', 't3'], R, pre=(), post=('epilogue',), unwind=3, live=False,
+                desc='start_poll / poll racing the worker callback under the real mutex: a handle taken and polled inside a read-side section must poll false',
+                extra={'stub_map': {'urcu_mb_call_rcu': 'my_call_rcu'}, 'indirect_only': {'helper': ['urcu_poll_worker_cb']},
+                       'require_done': 'none'})
+    return obs
 
 
 EXPLANATION = 'C14: polling API never reports early, eventually reports, stays true'
